@@ -9,7 +9,7 @@ import (
 )
 
 func init() {
-	register("C04", ruleC04EmitGuard, ruleC04HashMatcher, ruleC04KeyAlignment, ruleC04Strategy, ruleC04Analyze, ruleC04SideSwap,
+	register("C04", ruleC04EmitGuard, ruleC04HashMatcher, ruleC04KeyAlignment, ruleC04KeyEncoding, ruleC04FreshRows, ruleC04Strategy, ruleC04Analyze, ruleC04SideSwap,
 		// PARALLEL variants: lock/wait discipline (shared with C13/C10)
 		ruleC13CapturedVars, ruleC10GoClosures)
 }
@@ -375,6 +375,16 @@ func ruleC04KeyAlignment(c *Ctx) {
 	if nAnd == 0 {
 		ok2, why2 = false, "no AND arm found in the join-column extractor"
 	}
+	// the list is returned as accumulated: no filtering / de-duplication (positions pair the two sides)
+	allInstrs(ex, func(_ *ssa.BasicBlock, in ssa.Instruction) {
+		if r, isR := in.(*ssa.Return); isR && len(r.Results) == 2 {
+			if call, isCall := r.Results[0].(*ssa.Call); isCall {
+				if cal := call.Common().StaticCallee(); cal != nil && c.P.InModule(cal) {
+					ok2, why2 = false, "the column list is post-processed by "+funcName(cal)+" before it is returned: removing or moving entries breaks the positional pairing of the two sides"
+				}
+			}
+		}
+	})
 	c.Check(ok2, "c04.key-alignment", "extractJoinColumns/order", c.P.Pos(ex.Pos()), "conjuncts are visited Left then Right and appended in that order", why2)
 }
 
@@ -573,4 +583,167 @@ func ruleC04SideSwap(c *Ctx) {
 		}
 		c.Check(ok, "c04.matcher-siblings", x.name, c.P.Pos(x.fn.Pos()), "rows and identifiers swapped together iff not a left join; catalogs (left,leftIdent,rightIdent) and (right,rightIdent,leftIdent)", why)
 	}
+}
+
+
+// ruleC04KeyEncoding: per key column one value text and one separator.
+func ruleC04KeyEncoding(c *Ctx) {
+	c.Doc("c04.key-encoding", "bucket-key text: in the key-building loop every column contributes, in the same iteration, the %v text of the value read from the row for that column followed by a non-empty constant separator (without a separator (\"ab\",\"c\") and (\"a\",\"bc\") share a bucket), and the key map stores that same value under the column's name; the bucket id is a digest of exactly the buffer built for that row (buffer reset per row)")
+	f := c.P.Func(modPath, "ToCatalog")
+	if f == nil {
+		c.Unknown("c04.key-encoding", "ToCatalog", "-", "anchor lost")
+		return
+	}
+	key := c.P.funcKey(f)
+	var lp *loopInfo
+	for _, l := range rangeLoops(f) {
+		if strings.Contains(NewTB().Of(l.over).String(), "extractJoinColumns") {
+			lp = l
+		}
+	}
+	if lp == nil {
+		c.Unknown("c04.key-encoding", key, c.P.Pos(f.Pos()), "anchor lost: no loop over the extracted columns")
+		return
+	}
+	paths, err := WalkFrom(f, lp.body, lp.header, WalkCfg{StopAt: func(b *ssa.BasicBlock) bool { return b == lp.header }, MaxVisits: 1})
+	if err != nil {
+		c.Unknown("c04.key-encoding", key, c.P.Pos(f.Pos()), err.Error())
+		return
+	}
+	var why []string
+	n := 0
+	for _, p := range paths {
+		if p.Exit != "stop" {
+			continue
+		}
+		n++
+		var reader *Term
+		vals, seps, stores := 0, 0, 0
+		order := []string{}
+		for _, e := range p.Effects {
+			switch {
+			case e.Kind == "call" && e.Callee == "ExecReader":
+				if len(e.Args) == 2 && elemOfLoop(e.Args[1], lp) {
+					if call, ok := e.Instr.(*ssa.Call); ok {
+						reader = &Term{Op: "call", V: call}
+					}
+				}
+			case e.Kind == "call" && strings.Contains(e.Callee, "bytes.Buffer).WriteString"):
+				a := e.Args[len(e.Args)-1]
+				if sa, ok := callArgs(a, "fmt.Sprintf"); ok && len(sa) == 2 && sa[0].Name == `"%v"` && reader != nil && sa[1].Contains(func(x *Term) bool { return x.V == reader.V }) {
+					vals++
+					order = append(order, "v")
+				} else if a.Op == "const" && len(a.Name) > 2 {
+					seps++
+					order = append(order, "s")
+				} else {
+					why = append(why, "an unexpected write into the key buffer: "+a.String())
+				}
+			case e.Kind == "call" && (strings.Contains(e.Callee, "Fprint") || strings.Contains(e.Callee, "bytes.Buffer).Write")):
+				why = append(why, "the key buffer is written by "+e.Callee+" (not one value text plus one separator per column)")
+			case e.Kind == "mapupdate":
+				stores++
+				if reader == nil || !e.Args[2].Contains(func(x *Term) bool { return x.V == reader.V }) {
+					why = append(why, "the key map does not store the value read for this column")
+				}
+			}
+		}
+		if reader == nil {
+			why = append(why, "the column's value is not read from the row")
+		}
+		if vals != 1 || seps != 1 || strings.Join(order, "") != "vs" {
+			why = append(why, fmt.Sprintf("per column: %d value texts and %d separators written (order %q; exactly value then separator expected)", vals, seps, strings.Join(order, "")))
+		}
+		if stores != 1 {
+			why = append(why, fmt.Sprintf("per column: %d key-map stores", stores))
+		}
+	}
+	if n == 0 {
+		why = append(why, "no complete column iteration")
+	}
+	c.Check(len(why) == 0, "c04.key-encoding", key, c.P.Pos(f.Pos()), "value text then separator per column; key map holds the same value", strings.Join(uniq(why), "; "))
+}
+
+// ruleC04FreshRows: every emitted row is a map allocated for that emission.
+func ruleC04FreshRows(c *Ctx) {
+	c.Doc("c04.fresh-row", "in both matchers every map appended to the result was made inside every loop that encloses the append (one fresh map per emitted row): a map allocated outside the loop and re-filled would be appended several times as the same object, so one row would appear repeatedly and the others vanish")
+	for _, name := range []string{"JoinMatchFunc", "HashJoinMatchFunc"} {
+		f := c.joinMethod(name)
+		if f == nil {
+			c.Unknown("c04.fresh-row", name, "-", "anchor lost")
+			continue
+		}
+		key := c.P.funcKey(f)
+		// loop headers: range-over-slice and range-over-map
+		var headers []*ssa.BasicBlock
+		for _, l := range rangeLoops(f) {
+			headers = append(headers, l.header)
+		}
+		for _, nx := range mapRangeNexts(f) {
+			headers = append(headers, nx.Block())
+		}
+		ok, why, n := true, "", 0
+		allInstrs(f, func(b *ssa.BasicBlock, in ssa.Instruction) {
+			call, isCall := in.(*ssa.Call)
+			if !isCall {
+				return
+			}
+			bi, isB := call.Common().Value.(*ssa.Builtin)
+			if !isB || bi.Name() != "append" || len(call.Common().Args) != 2 {
+				return
+			}
+			// the appended element(s): varargs alloc stores
+			va, isSl := call.Common().Args[1].(*ssa.Slice)
+			if !isSl {
+				return
+			}
+			arr, isA := va.X.(*ssa.Alloc)
+			if !isA {
+				return
+			}
+			for _, st := range storesToArray(arr) {
+				v := st.Val
+				if mi, isMI := v.(*ssa.MakeInterface); isMI {
+					v = mi.X
+				}
+				mm, isMM := v.(*ssa.MakeMap)
+				if !isMM {
+					if ph, isPhi := v.(*ssa.Phi); isPhi {
+						_ = ph
+						ok, why = false, "the appended row is a loop-carried map, not a map made for this emission"
+					}
+					continue
+				}
+				n++
+				for _, h := range headers {
+					if inNaturalLoop(h, b) && !inNaturalLoop(h, mm.Block()) {
+						ok, why = false, "the row appended at "+c.P.Pos(call.Pos())+" is a map made at "+c.P.Pos(mm.Pos())+", outside the loop that repeats the append: all rows of the group are the same object"
+					}
+				}
+			}
+		})
+		if n == 0 {
+			ok, why = false, "no emission of a freshly made map found"
+		}
+		c.Check(ok, "c04.fresh-row", key, c.P.Pos(f.Pos()), fmt.Sprintf("%d emissions, each of a map made inside the enclosing loops", n), why)
+	}
+}
+
+// storesToArray: stores into elements of a (varargs) array allocation.
+func storesToArray(a *ssa.Alloc) []*ssa.Store {
+	var out []*ssa.Store
+	if refs := a.Referrers(); refs != nil {
+		for _, r := range *refs {
+			if ia, ok := r.(*ssa.IndexAddr); ok {
+				if rr := ia.Referrers(); rr != nil {
+					for _, s := range *rr {
+						if st, ok := s.(*ssa.Store); ok && st.Addr == ssa.Value(ia) {
+							out = append(out, st)
+						}
+					}
+				}
+			}
+		}
+	}
+	return out
 }
